@@ -55,7 +55,9 @@ Proof. exact update_silent_valid. Qed.
 Print Assumptions C03_update_silent_on_mark.
 
 (* out-of-range requests are rejected with a panic, never silently accepted: negative arguments, tick or
-   position or lengths beyond uint32, a position beyond the end, a deletion running past the end *)
+   position or lengths beyond uint32, and - for every request that inserts or deletes something - a position
+   beyond the end or a deletion running past the end.  The EMPTY request beyond the end is the exception:
+   it is not rejected (C03_update_empty_request_beyond_end_refuted, known finding F18). *)
 Theorem C03_update_rejects : forall t pos ins del s,
   WF s ->
   (t < 0 \/ MaxU32 <= t \/ pos < 0 \/ MaxU32 < pos \/ ins < 0 \/ del < 0 \/ MaxU32 < ins \/ MaxU32 < del \/
@@ -73,11 +75,20 @@ Theorem C03_update_mark_conflict : forall t pos ins del s,
 Proof. exact update_mark_conflict. Qed.
 Print Assumptions C03_update_mark_conflict.
 
-(* the only request outside [0, Len] that does not panic is the empty one, and it changes nothing *)
+(* the only request outside [0, Len] that does not panic is the empty one; it changes nothing and reports nothing *)
 Theorem C03_update_empty_request : forall t pos s,
   0 <= t < MaxU32 -> 0 <= pos <= MaxU32 -> update t pos 0 0 s = Ok (s, []).
 Proof. exact Rejects.update_noop. Qed.
 Print Assumptions C03_update_empty_request.
+
+(* ... but by the letter of the property ("a position beyond the end ... rejected with a panic and never silently
+   accepted") it should panic: the clause is FALSE of the code for empty requests.  Witness: a 10-line file,
+   Update(1, 12, 0, 0) returns without a panic (the `insLength|delLength == 0` return precedes the end-of-file test).
+   Known finding F18; the harness kinds *-emptybeyond replay it on the Go code. *)
+Theorem C03_update_empty_request_beyond_end_refuted :
+  exists s t pos, WF s /\ 0 <= t < MaxU32 /\ len s < pos <= MaxU32 /\ update t pos 0 0 s = Ok (s, []).
+Proof. exact empty_request_beyond_end_refuted. Qed.
+Print Assumptions C03_update_empty_request_beyond_end_refuted.
 
 (* NewFile *)
 Theorem C03_new_file : forall t0 n0, 0 <= t0 <= MaxU32 -> 0 <= n0 <= MaxU32 ->
